@@ -211,7 +211,7 @@ func VerifC03_TopicPause() {
 	o := verifOpts()
 	o.MemQueueSize = 2
 	n := verifShellNSQD(o)
-	verifrt.Stub("(*github.com/nsqio/nsq/nsqd.NSQD).Notify", verifNotifyNop)
+	verifrt.StubNative("(*github.com/nsqio/nsq/nsqd.NSQD).Notify", verifNotifyNop)
 	var t *Topic
 	var ch *Channel
 	verifrt.Atomic(func() {
